@@ -182,6 +182,128 @@ func genNondet(w *world) {
 		b.WriteString("\n")
 	}
 	b.WriteString("]\n\n")
+	// methods that write THROUGH their receiver: a field of a pointer receiver, or — for any receiver — an element
+	// of a map / a field behind a pointer reached from the receiver.  For a long-lived object (keeper, msg server,
+	// module) that is in-memory state surviving from one transaction, block or query to the next.
+	type rwrite struct{ fn, recv, lhs string }
+	var rws []rwrite
+	for _, fi := range w.funcs {
+		if offPath(fi) || fi.decl.Recv == nil || len(fi.decl.Recv.List) != 1 || len(fi.decl.Recv.List[0].Names) != 1 {
+			continue
+		}
+		fname := fset.Position(fi.decl.Pos()).Filename
+		if strings.HasSuffix(fname, ".pb.go") || strings.HasSuffix(fname, ".pb.gw.go") {
+			continue
+		}
+		// long-lived objects only: keepers, msg / query servers, modules, ante decorators, wasm plugins,
+		// proposal handlers (data objects — messages, results, iterators — live for one call)
+		rt := src(fi.decl.Recv.List[0].Type)
+		longLived := false
+		for _, mark := range []string{"Keeper", "msgServer", "queryServer", "AppModule", "Messenger", "Decorator", "Handler", "Plugin", "Querier"} {
+			if strings.Contains(rt, mark) {
+				longLived = true
+			}
+		}
+		if !longLived {
+			continue
+		}
+		info := fi.pkg.TypesInfo
+		recvID := fi.decl.Recv.List[0].Names[0]
+		recvObj := info.Defs[recvID]
+		_, ptrRecv := fi.decl.Recv.List[0].Type.(*ast.StarExpr)
+		fkey := funcKey(fi.obj)
+		check := func(lhs ast.Expr) {
+			// walk to the root; remember whether the path goes through a map index, slice index or pointer deref
+			through := false
+			e := lhs
+			depth := 0
+			for {
+				switch x := e.(type) {
+				case *ast.IndexExpr:
+					through = true
+					e = x.X
+					depth++
+					continue
+				case *ast.SelectorExpr:
+					if tv, ok := info.Types[x.X]; ok {
+						if _, isPtr := tv.Type.Underlying().(*types.Pointer); isPtr {
+							if _, isID := x.X.(*ast.Ident); !isID {
+								through = true
+							}
+						}
+					}
+					e = x.X
+					depth++
+					continue
+				case *ast.StarExpr:
+					through = true
+					e = x.X
+					depth++
+					continue
+				case *ast.ParenExpr:
+					e = x.X
+					continue
+				}
+				break
+			}
+			id, ok := e.(*ast.Ident)
+			if !ok || depth == 0 || info.Uses[id] != recvObj {
+				return
+			}
+			if ptrRecv || through {
+				rws = append(rws, rwrite{fkey, src(fi.decl.Recv.List[0].Type), src(lhs)})
+			}
+		}
+		ast.Inspect(fi.decl.Body, func(n ast.Node) bool {
+			switch st := n.(type) {
+			case *ast.AssignStmt:
+				if st.Tok.String() != ":=" {
+					for _, l := range st.Lhs {
+						check(l)
+					}
+				}
+			case *ast.IncDecStmt:
+				check(st.X)
+			case *ast.CallExpr:
+				if id, ok := st.Fun.(*ast.Ident); ok && (id.Name == "delete" || id.Name == "clear") && len(st.Args) > 0 {
+					check(&ast.IndexExpr{X: st.Args[0], Index: ast.NewIdent("_")})
+				}
+			}
+			return true
+		})
+	}
+	sort.Slice(rws, func(i, j int) bool { return rws[i].fn+rws[i].lhs < rws[j].fn+rws[j].lhs })
+	// who calls the writers (static callees over the whole module, app wiring included)
+	callersOf := map[string][]string{}
+	for _, fi := range w.funcs {
+		for _, c := range w.callees(fi) {
+			k := funcKey(c)
+			for _, r := range rws {
+				if r.fn == k {
+					callersOf[k] = append(callersOf[k], funcKey(fi.obj))
+					break
+				}
+			}
+		}
+	}
+	b.WriteString("/-- writes through the receiver of a long-lived object (function, receiver type, written location, callers) -/\n")
+	b.WriteString("def receiverWrites : List (String × String × String × List String) := [\n")
+	for i, r := range rws {
+		cs := callersOf[r.fn]
+		sort.Strings(cs)
+		var uniq []string
+		for j, c := range cs {
+			if j == 0 || cs[j-1] != c {
+				uniq = append(uniq, c)
+			}
+		}
+		fmt.Fprintf(&b, "  (%s, %s, %s, %s)", leanStr(r.fn), leanStr(r.recv), leanStr(r.lhs), leanStrList(uniq))
+		if i < len(rws)-1 {
+			b.WriteString(",")
+		}
+		b.WriteString("\n")
+	}
+	b.WriteString("]\n\n")
 	// who changes the subscriber tables of the process-wide event bus
 	var subs []string
 	for _, fi := range w.funcs {
